@@ -33,6 +33,12 @@ def handle : Handler := fun j => do
       let (nphn, ncor, nins, ndel, nsub) := Lev.editStats al
       return ok (jNats [nphn, ncor, nins, ndel, nsub])
     | none => return err "index-error"
+  | "distsub" => return ok (jNat (Lev.distSub (← costs j) s t))
+  | "summary" =>
+    -- ErrorsSummary.from_lists(ref = s, hyp = t)
+    match Lev.Summary.fromLists s t with
+    | some x => return ok (jNats [x.lines, x.refLen, x.errors, x.subs, x.inss, x.dels])
+    | none => return err "index-error"
   | _ => throw s!"C13: unknown op {op}"
 
 end Drv.C13
